@@ -69,6 +69,8 @@ func genC10(t *rapid.T) C10Case {
 		c.Files = append(c.Files, WSFile{Path: fmt.Sprintf("aux/a%d.lua", i), Text: fmt.Sprintf("Aux%d = 0\nprint(Aux%d, G1)\n", i, i)})
 	}
 	cur := text
+	curUtil := c.Files[1].Text
+	globalsHot := map[string]bool{"G1": true, "gfun": true, "Gtab": true}
 	n := rapid.IntRange(20, 80).Draw(t, "nmsgs")
 	for i := 0; i < n; i++ {
 		k := rapid.IntRange(0, 9).Draw(t, "kind")
@@ -91,6 +93,19 @@ func genC10(t *rapid.T) C10Case {
 						tk = hs[rapid.IntRange(0, len(hs)-1).Draw(t, "hotIdx")]
 						// cursor-driven requests dominate on the idioms
 						m = rapid.SampledFrom([]string{"textDocument/hover", "textDocument/hover", "textDocument/definition", "textDocument/completion", "textDocument/documentHighlight", m}).Draw(t, "hotMethod")
+					}
+				}
+				if rapid.IntRange(0, 5).Draw(t, "globalTok") == 0 {
+					// a workspace global used in several documents: references / rename fan out over the files
+					var gs []reflua.Token
+					for _, x := range toks {
+						if globalsHot[x.Text] {
+							gs = append(gs, x)
+						}
+					}
+					if len(gs) > 0 {
+						tk = gs[rapid.IntRange(0, len(gs)-1).Draw(t, "globalIdx")]
+						m = rapid.SampledFrom([]string{"textDocument/references", "textDocument/references", "textDocument/rename", m}).Draw(t, "globalMethod")
 					}
 				}
 				line, ch = refmodel.PosOf(cur, tk.Off)
@@ -128,6 +143,11 @@ func genC10(t *rapid.T) C10Case {
 				cur = cur + edit
 			}
 			c.Msgs = append(c.Msgs, C10Msg{Kind: "change", Text: cur})
+			if rapid.IntRange(0, 2).Draw(t, "alsoUtil") == 0 {
+				// the second open document is edited too (unsaved): two documents with cached analyses
+				curUtil += rapid.SampledFrom([]string{"print(G1)\n", "print(gfun(G1))\n", "local uz = Gtab.x\n"}).Draw(t, "utilEdit")
+				c.Msgs = append(c.Msgs, C10Msg{Kind: "change-util", Text: curUtil})
+			}
 		case k == 8:
 			c.Msgs = append(c.Msgs, C10Msg{Kind: "save"})
 		default:
@@ -142,6 +162,7 @@ func (c *C10Case) script(flood bool) (*proto.Request, []int) {
 	req := &proto.Request{Cmd: "session", Files: ws.protoFiles(), InitOptions: harness.J(harness.AllOn()), CallTimeoutMs: 60000}
 	req.Steps = []proto.Step{harness.DidOpen(c.Files[0].Path, c.Files[0].Text), harness.DidOpen(c.Files[1].Path, c.Files[1].Text)}
 	cur := c.Files[0].Text
+	curUtil := c.Files[1].Text
 	version := 1
 	var reqSteps []int
 	notifyOp, callOp := "notify", "call"
@@ -162,6 +183,15 @@ func (c *C10Case) script(flood bool) (*proto.Request, []int) {
 				"textDocument":   harness.M{"uri": harness.URI("main.lua"), "version": version},
 				"contentChanges": []harness.M{{"range": harness.M{"start": harness.Pos(0, 0), "end": harness.Pos(el, ec)}, "text": m.Text}}})})
 			cur = m.Text
+		case "change-util":
+			version++
+			ls := refmodel.Lines(curUtil)
+			el := len(ls) - 1
+			ec := refmodel.U16Len(curUtil[ls[el].Start:ls[el].End])
+			req.Steps = append(req.Steps, proto.Step{Op: notifyOp, Method: "textDocument/didChange", Params: harness.J(harness.M{
+				"textDocument":   harness.M{"uri": harness.URI(c.Files[1].Path), "version": version},
+				"contentChanges": []harness.M{{"range": harness.M{"start": harness.Pos(0, 0), "end": harness.Pos(el, ec)}, "text": m.Text}}})})
+			curUtil = m.Text
 		case "save":
 			st := harness.DidSave("main.lua", cur)
 			st.Op = notifyOp
